@@ -41,8 +41,11 @@ def run(ck, ctx):
         prog = ctx.prog(cfg)
         ck.configs.append(cfg)
         ck.fn_count += len(prog.fns)
+        raw = getattr(prog, "base", prog)
+        ds = derived_sources(raw)
+        prog = raw.inlined(no_inline=lambda g: g.id in ds, tag="c15")      # integer-parsing helpers stay calls: they are taint sources
         _taint_rules(ck, prog, cfg)
-        _r157(ck, prog, cfg)
+        _r157(ck, raw, cfg)
         _r155(ck, prog, cfg)
     _r156(ck, ctx)
 
